@@ -38,7 +38,7 @@ def max_distinct_overhangs(k):
     return (4 ** k - pal) // 2
 
 
-def gen_overhangs(rng, k, count, forbid=()):
+def gen_overhangs(rng, k, count, forbid=(), palindromes=0.0):
     """pairwise distinct, non-palindromic overhangs no two of which are reverse complements;
     `forbid`: substrings (the recognition site and its reverse complement) an overhang must not contain"""
     out = []
@@ -49,8 +49,10 @@ def gen_overhangs(rng, k, count, forbid=()):
         if tries > 10000:
             raise RuntimeError("cannot draw %d overhangs of length %d" % (count, k))
         o = rand_dna(rng, k)
-        if o == rc(o) or o in seen or rc(o) in seen or any(f in o for f in forbid):
+        if o in seen or rc(o) in seen or any(f in o for f in forbid):
             continue
+        if o == rc(o) and rng.random() >= palindromes:
+            continue   # self-complementary overhangs only with the requested probability
         seen.add(o)
         out.append(o)
     return out
